@@ -12,7 +12,7 @@ def load(debug_assertions=True):
     key = path
     if key not in _CACHE:
         fns, consts = mirparse.parse_dump(open(path).read())
-        _CACHE[key] = (fns, consts, rsrc.Sources("/repo"), path, secs, th)
+        _CACHE[key] = (fns, consts, rsrc.Sources(dump.ROOT), path, secs, th)
     return _CACHE[key]
 
 
